@@ -2,7 +2,8 @@ import QV.Model.Compiler
 import QV.Proofs.Circuit
 import QV.Proofs.Bennett
 import QV.Props.C02
-import QV.Proofs.CompilerClean
+-- PORT-PENDING import QV.Proofs.CompilerClean   (not yet ported to the repaired compiler model, docs/notes/PORT-PENDING.md)
+import QV.Model.CompilerClass
 /-!
 # C03 – Compiled circuits are clean: inputs preserved, scratch qubits back to zero
 
@@ -14,8 +15,11 @@ universal replay lemmas the uncomputation protocol rests on, plus – for every 
 – the layout the cleanliness statement is phrased in: `compile_input_qubits` (the arguments sit
 on qubits `0..n-1`, nothing else is mapped there by name), `compile_outs_defined` (every return
 bit names a qubit of the circuit, so `outs` has one entry per return bit),
-`compile_args_not_scratch` (no argument qubit is in the ancilla / free / marked set) and
+`compile_args_not_scratch` (no argument qubit is in the ancilla / free / marked / kept set) and
 `compile_replay_restores` (reverse replay of any compiled gate list restores every qubit).
+The model follows the compiler with the repairs `docs/fixes/CC-*.diff`.  The semantic theorem
+`C03_fragment_partial` (proved for the model of the unrepaired compiler) is parked in a
+`PORT-PENDING` block until `QV/Proofs/CompilerClean.lean` is ported (`docs/notes/PORT-PENDING.md`).
 -/
 namespace QV.C03
 open QV QV.Compiler
@@ -141,16 +145,16 @@ theorem compile_outs_defined (inputs : List String) (defs : List (String × BExp
     exact hlt
 
 /-- no argument qubit is ever part of the scratch space: for every run of `compile`, a qubit
-below the number of inputs is neither an ancilla nor in the free set (so `get_free_ancilla`
-never hands one out and `uncompute_all` never records one as freed) -/
+below the number of inputs is neither an ancilla nor in the free, marked or kept set (so
+`get_free_ancilla` never hands one out and `uncompute_all` never records one as freed) -/
 theorem compile_args_not_scratch (inputs : List String) (defs : List (String × BExp))
     (ret : Option (List String)) (unc : Bool) (cs : List Nat) (s : CState)
     (h : (compile inputs defs ret unc).run { choices := cs } = .ok ((), s)) :
-    ∀ q, q < inputs.length → q ∉ s.qc.anc ∧ q ∉ s.qc.free ∧ q ∉ s.qc.marked := by
-  obtain ⟨_, _, _, _, _, _, h1, h2, h3⟩ := C02.compile_bookkeeping inputs defs ret unc cs s h
+    ∀ q, q < inputs.length → q ∉ s.qc.anc ∧ q ∉ s.qc.free ∧ q ∉ s.qc.marked ∧ q ∉ s.qc.kept := by
+  obtain ⟨_, _, _, _, _, _, h1, h2, h3, _, h4⟩ := C02.compile_bookkeeping inputs defs ret unc cs s h
   intro q hq
   exact ⟨fun hm => Nat.not_le_of_lt hq (h1 q hm), fun hm => Nat.not_le_of_lt hq (h2 q hm),
-    fun hm => Nat.not_le_of_lt hq (h3 q hm)⟩
+    fun hm => Nat.not_le_of_lt hq (h3 q hm), fun hm => Nat.not_le_of_lt hq (h4 q hm)⟩
 
 /-- Bennett's principle applies to every compiled circuit: its gates are X/CX/MCX on distinct
 wires, so the body followed by its reverse restores every qubit -/
@@ -173,6 +177,7 @@ theorem mem_rets_of_class {r : String} {rets : List String} (hne : rets.isEmpty 
     subst this
     exact List.mem_cons_self
 
+/- PORT-PENDING theorem C03_fragment_partial (needs QV.Proofs.CompilerClean (CompilerSem, CompilerReplay, CompilerBennett); text unchanged)
 /-- **C03 on the tree-like single-definition fragment without De Morgan `Or`** (`inCleanFragment`:
 `inFragment`, at least one requested return name, every `Or` with at most two arguments), with
 `uncompute = true`: every successful run of the compiler model – for every admissible sequence of
@@ -209,6 +214,7 @@ theorem C03_fragment_partial (inputs : List String) (defs : List (String × BExp
       rw [hcl q hne', initState_getD]
       have : x[q]? = none := by simp; omega
       simp [List.getD_eq_getElem?_getD, this]
+PORT-PENDING end -/
 
 /-- an instance of the class of `C03_fragment_partial` (nested `And` / `Xor` / `Not`, binary `Or`) -/
 example : inCleanFragment ["a", "b", "c"]
@@ -216,11 +222,12 @@ example : inCleanFragment ["a", "b", "c"]
                     .sym "b"])] ["_ret"] = true := by
   decide +kernel
 
-/-- the excluded part of `inFragment`: `a & (a | b | c)` is in the class of `C02_fragment_partial` but its
-circuit is **not** clean.  The gate list is the one the model (and the real compiler) emits with
+/-- (about the **unrepaired** compiler; the repaired `compile_or` folds binary ors and applies no `X` to an
+argument qubit.)  The excluded part of `inFragment`: `a & (a | b | c)` is in the class of `C02_fragment_partial` but its
+circuit was **not** clean.  The gate list is the one the unrepaired compiler and its model emitted with
 ancillas 3, 4 (`anc_0` = the De Morgan `Or`, qubit 4 = `_ret`): `uncompute` replays `X 3` and the `MCX`
-into qubit 3 without the `X` gates on the argument qubits, so on input `000` qubit 3 ends as 1 (open
-finding `C03-uncompute-stale`).  (Kernel evaluation of `compile` itself is stuck on `List.mergeSort`,
+into qubit 3 without the `X` gates on the argument qubits, so on input `000` qubit 3 ends as 1
+(finding `C03-uncompute-stale`, repaired).  (Kernel evaluation of `compile` itself is stuck on `List.mergeSort`,
 so the list is spelled out; `./check C03` compares model and compiler gate lists on such instances.) -/
 theorem C03_fragment_demorgan_witness :
     inFragment ["a", "b", "c"] [("_ret", .and [.sym "a", .or [.sym "a", .sym "b", .sym "c"]])] ["_ret"] = true ∧
@@ -233,9 +240,10 @@ theorem C03_fragment_demorgan_witness :
       { cls := .X, wires := [2] }, { cls := .X, wires := [1] }, { cls := .X, wires := [0] }] 5 3 [4] = false := by
   decide +kernel
 
-/-- the other excluded part: with no requested return name nothing is kept and `uncompute_all` replays
-the gate of the result qubit after its control was uncomputed: `(a & b) & c` (model output with
-ancillas 3, 4) leaves qubit 4 dirty -/
+/-- (about the **unrepaired** compiler.)  The other excluded part: with no requested return name nothing was kept
+and `uncompute_all` replayed the gate of the result qubit after its control was uncomputed: `(a & b) & c`
+(output of the unrepaired model with ancillas 3, 4) leaves qubit 4 dirty; the repaired compiler keeps the
+ancillas of a definition that is not a return bit until `uncompute_all` -/
 theorem C03_fragment_norets_witness :
     inFragment ["a", "b", "c"] [("_ret", .and [.and [.sym "a", .sym "b"], .sym "c"])] [] = true ∧
     inCleanFragment ["a", "b", "c"] [("_ret", .and [.and [.sym "a", .sym "b"], .sym "c"])] [] = false ∧
